@@ -36,7 +36,7 @@ MODE = {"C03": "part", "C08": "hold", "C14": "lat"}
 
 def base_consts(**kw):
     c = dict(N=2, Tick=2, GMin=0, GMax=2, LatChoices=set(), MaxChoices=set(), Offsets={0},
-             RandomOrder=False, CtlOps=set(), HostCtlOps=set(), AllowManual=False,
+             RandomOrder=False, CtlOps=set(), HostCtlOps=set(), AllowManual=False, Kinds={"dgram"},
              FailModes={False}, MaxMsgs=3, MaxSteps=3, MaxCtl=2, MaxLatCtl=0)
     c.update(kw)
     if "RegOrder" not in c:
@@ -59,7 +59,12 @@ def mc_configs(pid, tier):
             ("mc_part_nofail", base_consts(GMax=3, CtlOps=set(PART_OPS), HostCtlOps={"partition_oneway", "repair"},
                                            FailModes={False}, MaxMsgs=3, MaxSteps=4 if not q else 3, MaxCtl=3 if not q else 2)),
         ]
+        # TCP probes answered by the receiving host itself (ReplySend)
+        cfgs.append(("mc_part_probe", base_consts(GMax=1, CtlOps=set(PART_OPS), HostCtlOps=set(), Kinds={"probe"},
+                                                  FailModes={True}, MaxMsgs=4, MaxSteps=4, MaxCtl=2)))
         if not q:
+            cfgs.append(("mc_part_probe_dgram", base_consts(GMax=2, CtlOps=set(PART_OPS), HostCtlOps=set(), Kinds={"dgram", "probe"},
+                                                            FailModes={False}, MaxMsgs=4, MaxSteps=4, MaxCtl=2)))
             cfgs.append(("mc_part_3hosts", base_consts(N=3, GMax=1, CtlOps=set(PART_OPS), HostCtlOps={"partition_oneway"},
                                                        FailModes={True}, MaxMsgs=2, MaxSteps=3, MaxCtl=2)))
         return cfgs
@@ -70,7 +75,11 @@ def mc_configs(pid, tier):
         ]
         cfgs.append(("mc_hold_repair", base_consts(GMax=1, CtlOps=set(HOLD_REPAIR_OPS), HostCtlOps=set(), AllowManual=False,
                                                    MaxMsgs=2, MaxSteps=4 if not q else 3, MaxCtl=3)))
+        cfgs.append(("mc_hold_probe", base_consts(GMax=1, CtlOps=set(HOLD_OPS), HostCtlOps=set(), AllowManual=True, Kinds={"probe"},
+                                                  MaxMsgs=4, MaxSteps=4, MaxCtl=3)))
         if not q:
+            cfgs.append(("mc_hold_probe_dgram", base_consts(GMax=1, CtlOps=set(HOLD_OPS), HostCtlOps=set(), AllowManual=True,
+                                                            Kinds={"dgram", "probe"}, MaxMsgs=4, MaxSteps=4, MaxCtl=3)))
             cfgs.append(("mc_hold_3hosts", base_consts(N=3, GMax=1, CtlOps=set(HOLD_OPS), HostCtlOps={"release"},
                                                        AllowManual=True, MaxMsgs=2, MaxSteps=3, MaxCtl=2)))
             cfgs.append(("mc_hold_4msgs", base_consts(GMax=1, CtlOps=set(HOLD_OPS), HostCtlOps=set(), AllowManual=True,
@@ -83,7 +92,11 @@ def mc_configs(pid, tier):
             ("mc_lat_t3", base_consts(Tick=3, GMin=0, GMax=4, LatChoices={1}, MaxChoices={2}, Offsets={0, 2},
                                       RandomOrder=False, MaxMsgs=3, MaxSteps=3, MaxLatCtl=1)),
         ]
+        cfgs.append(("mc_lat_probe", base_consts(Tick=2, GMin=1, GMax=3, LatChoices={5}, MaxChoices={4}, Offsets={0}, RandomOrder=True,
+                                                 Kinds={"probe"}, MaxMsgs=4, MaxSteps=4, MaxLatCtl=1)))
         if not q:
+            cfgs.append(("mc_lat_probe_t2", base_consts(Tick=2, GMin=1, GMax=3, LatChoices={0, 5}, MaxChoices={1, 4}, Offsets={0, 1},
+                                                        RandomOrder=True, Kinds={"probe"}, MaxMsgs=4, MaxSteps=4, MaxLatCtl=1)))
             cfgs.append(("mc_lat_t1_3hosts", base_consts(N=3, Tick=1, GMin=0, GMax=2, LatChoices={3}, MaxChoices={1},
                                                          Offsets={0}, RandomOrder=True, MaxMsgs=2, MaxSteps=3, MaxLatCtl=1)))
         return cfgs
@@ -136,7 +149,14 @@ def random_configs(pid, tier, seed):
         base.append(dict(n=3, tick=1, gmin=3, gmax=5, reg="2,3,1"))   # minimum above two ticks, sparse links
     if not q:
         base += [dict(n=3, tick=5, gmin=2, gmax=4), dict(n=4, tick=1, gmin=0, gmax=9), dict(n=2, tick=2, gmin=3, gmax=3)]
-    return [dict(c, runs=runs, seed=seed * 101 + i, mode=MODE[pid]) for i, c in enumerate(base)]
+    cfgs = [dict(c, runs=runs, seed=seed * 101 + i, mode=MODE[pid]) for i, c in enumerate(base)]
+    # the same scenarios with TCP probes mixed in: a probe is refused by the receiving host, which answers
+    # with an RST from inside Link::deliver_messages (ReplySend); control calls from the Sim handle only
+    tcp = [dict(n=3, tick=2, gmin=0, gmax=5), dict(n=2, tick=1, gmin=1, gmax=3, reg="2,1")]
+    if not q:
+        tcp += [dict(n=4, tick=3, gmin=0, gmax=7, reg="3,1,4,2"), dict(n=3, tick=1, gmin=2, gmax=6)]
+    cfgs += [dict(c, runs=runs, seed=seed * 103 + 50 + i, mode="rst" + MODE[pid]) for i, c in enumerate(tcp)]
+    return cfgs
 
 
 ALL_OPS = set(PART_OPS + HOLD_OPS)
@@ -150,6 +170,7 @@ def trace_consts(n, tick, gmin, gmax, regorder=None):
     big = set(range(0, 64))
     return dict(RegOrder=reg(*(regorder or range(1, n + 1))), N=n, Tick=tick, GMin=gmin, GMax=gmax, LatChoices=big, MaxChoices=big, Offsets=set(range(0, tick)),
                 RandomOrder=True, CtlOps=ALL_OPS, HostCtlOps=ALL_OPS, AllowManual=True, FailModes={False},
+                Kinds={"dgram", "probe"},
                 MaxMsgs=100000, MaxSteps=100000, MaxCtl=100000, MaxLatCtl=100000)
 
 
@@ -178,8 +199,10 @@ def count_lines(path):
 def run(pid, tier, seed, replay=None):
     ck = vlib.Check(pid, tier, seed)
     ck.assumptions = [
-        "whole-millisecond ticks and latencies; hosts registered before the first step; UDP payload kind "
-        "(TCP traffic over the same link layer is exercised by the C02/C12 checks)",
+        "whole-millisecond ticks and latencies; hosts registered before the first step; traffic = UDP datagrams plus "
+        "TCP probes (data segments for a stream the receiver has dropped) and the RSTs the receiving host answers "
+        "them with from inside Link::deliver_messages; complete TCP streams over the same link layer are "
+        "exercised by the C02/C12 checks",
         "spec->code replays use deterministic latencies (fixed global latency / set_link_latency), fail_rate 0, "
         "registration host order; sampled latencies, fail/repair rates and random host order are covered by "
         "the recorded-trace direction",
@@ -205,6 +228,8 @@ def run(pid, tier, seed, replay=None):
         need = ["StepBegin", "TurnBegin", "StepEnd", "HostSend"]
         if consts["CtlOps"]:
             need.append("CtlMC")
+        if "probe" in consts["Kinds"]:
+            need.append("ReplySend")
         missing = [a for a in need if r.coverage and r.coverage.get(a, 0) == 0]
         if missing:
             raise MachineryError(f"vacuity: actions never taken in {name}: {missing}")
